@@ -16,6 +16,7 @@ import (
 	"strconv"
 	"strings"
 	"sync"
+	"sync/atomic"
 	"syscall"
 	"time"
 )
@@ -128,20 +129,26 @@ func (c *CaseCtx) Sample(v interface{}) { c.res.Sample = v }
 func (c *CaseCtx) Dir(name string) string { return filepath.Join(c.Scratch, name) }
 
 type Check struct {
-	ID           string
-	Level        string // exploration | fault_enumeration
-	NCases       func(tier string) int
-	Run          func(c *CaseCtx)
-	Rule         string
-	Assumptions  []string
-	Workers      int                                            // 0 => 16
-	CaseTimeout  time.Duration                                  // watchdog per worker (whole shard); 0 => default
-	CaseDeadline time.Duration                                  // per case; 0 => 90 s quick / 10 min thorough
-	Floor        func(tier string, agg map[string]int64) string // coverage floor: non-empty => harness error
-	Post         func(d *driverState)                           // optional extra aggregation (race logs ...)
+	ID            string
+	Level         string // exploration | fault_enumeration
+	NCases        func(tier string) int
+	Run           func(c *CaseCtx)
+	Rule          string
+	Assumptions   []string
+	Workers       int                                            // 0 => 16
+	CaseTimeout   time.Duration                                  // watchdog per worker (whole shard); 0 => default
+	CaseDeadline  time.Duration                                  // per case; 0 => 90 s quick / 10 min thorough
+	Floor         func(tier string, agg map[string]int64) string // coverage floor: non-empty => harness error
+	Post          func(d *driverState)                           // optional extra aggregation (race logs ...)
+	NoLeakMonitor bool                                           // fault-injection / fuzz checks: error paths are not held to the handle rule
+	LeakClass     string                                         // non-empty: handles still held at the end of a case are a violation of this class
 }
 
 var checks = map[string]*Check{}
+
+// faultInjectedInCase is set by the fault injector: error paths after an injected I/O error are not held to
+// the "no handle left behind" rule of the resource monitor.
+var faultInjectedInCase int32
 
 func register(c *Check) { checks[c.ID] = c }
 
@@ -169,6 +176,7 @@ func runOneCase(ck *Check, tier string, seed int64, i, n int, scratchRoot string
 	defer os.RemoveAll(dir)
 	c := &CaseCtx{Prop: ck.ID, Tier: tier, Seed: seed, Case: i, NCases: n,
 		Rng: rand.New(rand.NewSource(caseSeed(ck.ID, seed, i))), Scratch: dir, res: &res}
+	atomic.StoreInt32(&faultInjectedInCase, 0)
 	func() {
 		defer func() {
 			if p := recover(); p != nil {
@@ -178,6 +186,24 @@ func runOneCase(ck *Check, tier string, seed int64, i, n int, scratchRoot string
 		}()
 		ck.Run(c)
 	}()
+	if res.Verdict == "held" && !ck.NoLeakMonitor && atomic.LoadInt32(&faultInjectedInCase) == 0 {
+		// resource monitor: the case has closed every database it opened, so the process must hold no descriptor
+		// and no mapping of a file below the case's scratch directory any more. Counted for every check; a verdict
+		// only where the check names a class for it (the Merge checks: a handle leaked per Merge is what makes Open
+		// and Commit fail with ENOMEM / EMFILE in a long-running process).
+		fds, maps := leakedHandles(dir + string(os.PathSeparator))
+		c.Stat("handles_leaked_fd", int64(len(fds)))
+		c.Stat("handles_leaked_mmap", int64(len(maps)))
+		c.Stat("handle_leak_checks", 1)
+		if lc := leakClassOf(ck); lc != "" {
+			if len(maps) > 0 {
+				c.Violate("resource-leak:mmap", lc, fmt.Sprintf("after the case closed every database, %d memory mappings of database files are still held by the process (they are never released: a long-running process runs into ENOMEM), e.g. %s", len(maps), firstN(strings.Join(maps, " , "), 600)))
+			}
+			if len(fds) > 0 {
+				c.Violate("resource-leak:fd", lc, fmt.Sprintf("after the case closed every database, %d descriptors of database files are still open (released only if a finalizer happens to run), e.g. %s", len(fds), firstN(strings.Join(fds, " , "), 600)))
+			}
+		}
+	}
 	res.FP = strconv.FormatUint(c.fp.h, 16)
 	if res.Verdict == "violated" {
 		h := c.hist
@@ -780,4 +806,14 @@ func main() {
 		}
 		os.Exit(driverMain(os.Args[1], tier))
 	}
+}
+
+func leakClassOf(ck *Check) string {
+	if ck.LeakClass != "" {
+		return ck.LeakClass
+	}
+	if os.Getenv("VERIF_LEAK_ALL") != "" {
+		return "resource-leak"
+	}
+	return ""
 }
